@@ -575,9 +575,13 @@ func ruleERR(c *Ctx) {
 						good = true // return err
 					}
 					if len(last.Results) == 0 && len(L) >= 2 {
-						if as, ok := L[len(L)-2].(*ast.AssignStmt); ok && len(as.Lhs) == 1 && w.Src(as.Rhs[0]) == id.Name {
+						if as, ok := L[len(L)-2].(*ast.AssignStmt); ok && len(as.Lhs) == 1 {
 							if f, _ := FieldSel(p, as.Lhs[0]); f != nil && f.Name() == "err" {
-								good = true // v.err = e; return
+								if w.Src(as.Rhs[0]) == id.Name {
+									good = true // v.err = e; return
+								} else if call, ok := ast.Unparen(as.Rhs[0]).(*ast.CallExpr); ok && passesErrorOn(w, call, id.Name) {
+									good = true // v.err = mapError(…, e); return - the helper ends in `return e`
+								}
 							}
 						}
 					}
@@ -587,6 +591,40 @@ func ruleERR(c *Ctx) {
 			return true
 		})
 	}
+}
+
+// passesErrorOn: call is a call of an unexported helper of the module that
+// receives the error variable errName and whose body ends by returning that
+// parameter unchanged (the fall-through of an error-mapping helper).
+func passesErrorOn(w *World, call *ast.CallExpr, errName string) bool {
+	hd := gHelpers[call]
+	if hd == nil || hd.Body == nil || len(hd.Body.List) == 0 {
+		return false
+	}
+	idx := -1
+	for i, a := range call.Args {
+		if id, ok := ast.Unparen(a).(*ast.Ident); ok && id.Name == errName {
+			idx = i
+		}
+	}
+	if idx < 0 {
+		return false
+	}
+	var params []string
+	for _, f := range hd.Type.Params.List {
+		for _, nm := range f.Names {
+			params = append(params, nm.Name)
+		}
+	}
+	if idx >= len(params) {
+		return false
+	}
+	r, ok := hd.Body.List[len(hd.Body.List)-1].(*ast.ReturnStmt)
+	if !ok || len(r.Results) != 1 {
+		return false
+	}
+	id, ok := ast.Unparen(r.Results[0]).(*ast.Ident)
+	return ok && id.Name == params[idx]
 }
 
 // fmtVerbs lists the verb letters of a format string in order (no %%).
@@ -787,16 +825,13 @@ func ruleSEARCH1(c *Ctx) {
 			if !ok {
 				return true
 			}
-			found := false
-			ast.Inspect(is.Cond, func(m ast.Node) bool {
+			// (the test may have been moved into a small predicate method)
+			found := containsDeep(is.Cond, func(m ast.Node) bool {
 				b, ok := m.(*ast.BinaryExpr)
 				if !ok {
-					return true
+					return false
 				}
-				if (b.Op == token.LEQ && isBasePlusSize(b.Y)) || (b.Op == token.GEQ && isBasePlusSize(b.X)) {
-					found = true
-				}
-				return true
+				return (b.Op == token.LEQ && isBasePlusSize(b.Y)) || (b.Op == token.GEQ && isBasePlusSize(b.X))
 			})
 			if found {
 				n++
